@@ -43,12 +43,20 @@ MixedOk(ev) ==
        /\ ev.r.k = "float" /\ ev.aux.k = "float"
        /\ ev.r.f = ev.aux.f
 
-(* float plus, minus, times float on finite operands: correctly rounded exact result *)
+(* float plus, minus, times float on finite operands: correctly rounded exact result;          *)
+(* float / % %% // float with a non-zero divisor: NumTower!FDivFamilyOk; with a zero divisor   *)
+(* the result is some float (infinity / NaN by IEEE, not judged beyond its level)              *)
 FBinOk(ev) ==
     LET x == FltToRat(ev.a.f)  y == FltToRat(ev.b.f)
-        exact == CASE ev.op = "+" -> RatAdd(x, y) [] ev.op = "-" -> RatSub(x, y) [] ev.op = "*" -> RatMul(x, y)
-    IN ev.out = "ok" /\ ev.r.k = "float" /\
-       (IF exact.n.s = 0 THEN ev.r.f.c = "zero" ELSE CorrectlyRounded(ev.r.f, exact))
+    IN IF ev.op \in {"+", "-", "*"}
+       THEN LET exact == CASE ev.op = "+" -> RatAdd(x, y) [] ev.op = "-" -> RatSub(x, y) [] ev.op = "*" -> RatMul(x, y)
+            IN ev.out = "ok" /\ ev.r.k = "float" /\ RoundsTo(ev.r.f, exact)
+       ELSE IF y.n.s = 0
+       THEN \* a zero divisor: // and %% raise at every level (guard in the builtins), / and % give
+            \* the IEEE infinity / NaN, judged as "some float"
+            IF ev.op \in {"//", "%%"} THEN ev.out = "throw" ELSE ev.out = "ok" /\ ev.r.k = "float"
+       ELSE /\ ev.out = "ok" /\ ev.r.k = "float"
+            /\ FDivFamilyOk(ev.op, ev.r.f, x, y)
 
 (* sort: perm is the permutation (1-based positions into xs) that the      *)
 (* implementation produced; it must be THE stable sorting permutation:     *)
